@@ -630,6 +630,32 @@ fn check_builder_indented(calls: &[Call], loc: &mut Local) -> Result<(), String>
             }
         }
         let bytes = w.into_inner();
+        // the async element builder on the same indenting writer must produce the same bytes
+        {
+            let mut wa = Writer::new_with_indent(Vec::new(), indent.0, indent.1);
+            for (n, c) in elems.iter().enumerate() {
+                if let Call::Elem { name, attrs, content, .. } = c {
+                    let mut ew = wa.create_element(name.as_str());
+                    for (i, (k, v)) in attrs.iter().enumerate() {
+                        if (i + n) % 2 == 1 {
+                            ew = ew.new_line();
+                        }
+                        ew = ew.with_attribute((k.as_str(), v.as_str()));
+                    }
+                    match content {
+                        Content::Empty => block_on(ew.write_empty_async(), 1000)?.0.map(|_| ()).map_err(io_err)?,
+                        Content::Text(t) => block_on(ew.write_text_content_async(BytesText::new(t)), 1000)?.0.map(|_| ()).map_err(io_err)?,
+                        Content::CData(t) => block_on(ew.write_cdata_content_async(BytesCData::new(t.as_str())), 1000)?.0.map(|_| ()).map_err(io_err)?,
+                        Content::PI(t) => block_on(ew.write_pi_content_async(BytesPI::new(t.as_str())), 1000)?.0.map(|_| ()).map_err(io_err)?,
+                        Content::Inner(_) => unreachable!(),
+                    }
+                }
+            }
+            let ba = wa.into_inner();
+            if ba != bytes {
+                return Err(format!("async element builder on an indenting writer produced {:?} but the sync one {:?}", show(&ba), show(&bytes)));
+            }
+        }
         let ws_only = |m: &M| matches!(m, M::Text(t) if t.chars().all(|c| matches!(c, ' ' | '\t' | '\n' | '\r')));
         let got: Vec<M> = normalize(read_back(&bytes, loc).map_err(|e| format!("element builder on an indenting writer: {} (bytes {:?})", e, show(&bytes)))?).into_iter().filter(|m| !ws_only(m)).collect();
         let want: Vec<M> = normalize(want).into_iter().filter(|m| !ws_only(m)).collect();
